@@ -1295,6 +1295,22 @@ void Validator::ValidatorImpl::validateUnitsUnitsItem(size_t index, const UnitsP
         issue->mPimpl->setReferenceRule(Issue::ReferenceRule::UNIT_UNITS_REFERENCE);
         addIssue(issue);
     }
+    // Check that the exponent and the multiplier are real numbers (an infinity or a NaN, which can only be set through the
+    // API, cannot be written as a CellML real number).
+    if (!std::isfinite(exponent)) {
+        auto issue = Issue::IssueImpl::create();
+        issue->mPimpl->setDescription("Unit referencing '" + reference + "' in units '" + units->name() + "' has an exponent that is not a real number.");
+        issue->mPimpl->mItem->mPimpl->setUnitsItem(UnitsItem::create(units, index));
+        issue->mPimpl->setReferenceRule(Issue::ReferenceRule::UNIT_ATTRIBUTE_EXPONENT_VALUE);
+        addIssue(issue);
+    }
+    if (!std::isfinite(multiplier)) {
+        auto issue = Issue::IssueImpl::create();
+        issue->mPimpl->setDescription("Unit referencing '" + reference + "' in units '" + units->name() + "' has a multiplier that is not a real number.");
+        issue->mPimpl->mItem->mPimpl->setUnitsItem(UnitsItem::create(units, index));
+        issue->mPimpl->setReferenceRule(Issue::ReferenceRule::UNIT_ATTRIBUTE_MULTIPLIER_VALUE);
+        addIssue(issue);
+    }
     // Check for a valid identifier.
     if (!isValidXmlName(id)) {
         auto issue = Issue::IssueImpl::create();
